@@ -342,7 +342,7 @@ pub fn check(rec: &RunRecord, ops: &[&Op], reg: &Reg, which: &Which, cells: &mut
         }
         if which.c02 {
             receiver_check(&op.events, op.idx, reg, &mut calls_seen, cells, &mut out);
-            if let Outcome::Panic(p) = &op.outcome {
+            if let Some(p) = op.outcome.foreign_panic() {
                 out.push(Finding::new("C02", "c02.panic", op.idx, format!("operation panicked: {p}")));
             }
         }
